@@ -188,9 +188,9 @@ fn bounded_input(w: Wave, t: usize, st: &mut u64) -> f64 {
     }
 }
 
-fn boundedness(v: &V, wave: Wave, l: usize, seed: u64, out: &mut TrialOut) {
+fn boundedness(v: &V, wave: Wave, l: usize, seed: u64, amp: f64, out: &mut TrialOut) {
     let cell = format!("{}/bounded", v.name);
-    let (lo, hi) = bound_of(v, 1.0);
+    let (lo, hi) = bound_of(v, amp);
     let Ok(mut inst) = guarded(|| build_plain::<f64>(&v.spec)) else {
         out.count("constructor_rejections", 1);
         return;
@@ -200,7 +200,7 @@ fn boundedness(v: &V, wave: Wave, l: usize, seed: u64, out: &mut TrialOut) {
     let mut worst = 0f64;
     let mut worst_early = 0f64;
     for t in 0..16 * l {
-        let x = bounded_input(wave, t, &mut st);
+        let x = amp * bounded_input(wave, t, &mut st);
         let r = guarded(|| {
             inst.update(x);
             inst.last()
@@ -217,9 +217,10 @@ fn boundedness(v: &V, wave: Wave, l: usize, seed: u64, out: &mut TrialOut) {
                     "bounded",
                     "any",
                     format!(
-                        "{} at f64: input {:?} bounded by 1 (seed {}), step {}: output {:e} outside the length-independent bound [{:e}, {:e}] derived from the reference model",
+                        "{} at f64: input {:?} bounded by {:e} (seed {}), step {}: output {:e} outside the length-independent bound [{:e}, {:e}] derived from the reference model",
                         v.spec.show(),
                         wave,
+                        amp,
                         seed,
                         t,
                         o,
@@ -452,7 +453,14 @@ impl Monitor for C09 {
         if idx % 61 == 0 {
             out.sample(format!("{}: input {:?} bounded by 1, runs of {} / {} / {} updates against the bound {:?}", v.spec.show(), wave, l, 4 * l, 16 * l, bound_of(&v, 1.0)));
         }
-        boundedness(&v, wave, l, seed, out);
+        // Ema is a convex combination of bounded values: for it the bound holds up to the edge of the
+        // scalar's range (a third of its trials: inputs bounded by 0.75 x f64::MAX, where the difference
+        // of two admissible values is no longer a finite number)
+        let amp = if v.name == "Ema" && rng.chance(1, 3) { 0.75 * f64::MAX } else { 1.0 };
+        if amp != 1.0 {
+            out.count("bounded_trials_at_three_quarters_of_f64_max(Ema)", 1);
+        }
+        boundedness(&v, wave, l, seed, amp, out);
     }
     fn required_cells(&self, _cfg: &Cfg) -> Vec<String> {
         let mut v = vec![];
@@ -464,7 +472,7 @@ impl Monitor for C09 {
         v
     }
     fn rule(&self) -> String {
-        "trial = (one of the nine recursive views with parameter grid; N from the minimum, all of 1..9 always, to 64 (+100, 1000 in thorough); clause). bounded: input in [-1,1] from {LCG noise, square waves with half-period 1..4N incl. the resonance region, impulse, step, alternating}, every output of runs of L, 4L, 16L updates (L = 1e4 quick) finite and inside a bound computed from the reference model that does not depend on the run length. fading: two instances, different bounded prefixes of 0..450 values (a third of them 2^20..2^33 times larger than the tail, with the settle length extended accordingly), common noise tail; from S steps after the merge (S from the reference pole radius) outputs agree to 1e-6. Chains of two linear recursive views against the product of their reference bounds. distinct = distinct (view+parameters, clause, seed)".into()
+        "trial = (one of the nine recursive views with parameter grid; N from the minimum, all of 1..9 always, to 64 (+100, 1000 in thorough); clause). bounded: input in [-1,1] (Ema: a third of the trials in [-0.75 MAX, 0.75 MAX]) from {LCG noise, square waves with half-period 1..4N incl. the resonance region, impulse, step, alternating}, every output of runs of L, 4L, 16L updates (L = 1e4 quick) finite and inside a bound computed from the reference model that does not depend on the run length. fading: two instances, different bounded prefixes of 0..450 values (a third of them 2^20..2^33 times larger than the tail, with the settle length extended accordingly), common noise tail; from S steps after the merge (S from the reference pole radius) outputs agree to 1e-6. Chains of two linear recursive views against the product of their reference bounds. distinct = distinct (view+parameters, clause, seed)".into()
     }
     fn assumptions(&self) -> Vec<String> {
         vec![
